@@ -9,6 +9,8 @@ empty when the error is raised (Program.edit may write the line *number* only).
   Program.store_line / list_lines / save (B, A) / edit / merge (-> store_line)
   machine.Memory.peek_ / poke_ / bload_ / bsave_
   Implementation.chain_ (MERGE option) / list_ / llist_ / merge_ (through their callees)
+  mlparser.MLParser.parse_number / parse_string: a VARPTR$ pointer inside a DRAW/PLAY string is only ever
+  resolved through DataSegment.get_value_for_varptrstr (variables at exactly that address), never read raw
 Conversely SAVE ,P succeeds (C15), PEEK/POKE stay available to the running program
 (run_mode = True), and the protection flag can be cleared by POKE only when the POKE itself
 passed the guard and allow_protect is set (DataSegment._set_basic_memory).
@@ -232,6 +234,47 @@ def t_flag_poke(E, allow):
         E.prove(prot is True, 'protection cannot be changed when allow_protect is off')
 
 
+def t_mlparser_pointer(E, which):
+    """DRAW / PLAY strings may carry a 3-byte VARPTR$ pointer: the macro-language parser hands it to
+    DataSegment.get_value_for_varptrstr (which resolves it to a variable stored at exactly that address,
+    C11) and touches memory in no other way - a forged pointer cannot read program bytes."""
+    from pcbasic.basic import mlparser
+    log = []
+    vals = values_env(with_strings=True)
+    class _Memory(object):
+        _pyvc_trusted = True
+        data_segment = 0x13ad
+        def __init__(self):
+            self.program = Spy('program', log, {'protected': True})
+        def get_value_for_varptrstr(self, ptr):
+            log.append(('get_value_for_varptrstr', tuple(to_cells(ptr))))
+            if which == 'number':
+                v = numbers.Integer(None, vals)
+                return v.from_int(7)
+            s = vals.new_string()
+            return s
+        def __getattr__(self, k):
+            if k.startswith('__'):
+                raise AttributeError(k)
+            log.append(('memory.' + k,))
+            return Spy('memory.' + k, log)
+    mem = _Memory()
+    size = E.int('size', 0, 8)
+    lo, hi = E.int('lo', 0, 255), E.int('hi', 0, 255)
+    ptr = [size, lo, hi]
+    if which == 'number':
+        text = SBuf([61] + ptr + [59], 'bytes') if E.mode == 'symbolic' else bytes([61] + ptr + [59])    # "=" pointer ";"
+    else:
+        text = SBuf(ptr + [59], 'bytes') if E.mode == 'symbolic' else bytes(ptr + [59])
+    p = E.new(mlparser.MLParser, text, mem, vals)
+    r = E.call(p.parse_number if which == 'number' else p.parse_string)
+    E.prove(not r.raised or isinstance(r.exc, BASICError), 'only BASIC errors')
+    calls = [x for x in log]
+    E.prove(len(calls) == 1 and calls[0][0] == 'get_value_for_varptrstr', 'the only access to memory is the variable look-up by pointer')
+    if len(calls) == 1 and calls[0][0] == 'get_value_for_varptrstr':
+        E.prove(And(*[a == b for a, b in zip(calls[0][1], ptr)]) if len(calls[0][1]) == 3 else False, 'with the three bytes of the string')
+
+
 TASKS = [
     Task('Program.store_line', t_store_line),
     Task('Program.list_lines', t_list_lines, cases=[{'frm': a, 'to': b} for a, b in ((None, None), (10, 20), (b'.', None))]),
@@ -242,6 +285,7 @@ TASKS = [
     Task('Memory.bload_/bsave_', t_bload_bsave, cases=[{'fn': f} for f in ('bload_', 'bsave_')]),
     Task('Memory.peek_ (run mode)', t_running_program_may_peek),
     Task('Implementation.chain_', t_chain_merge, cases=[{'merge': m} for m in (True,)]),
+    Task('MLParser (VARPTR$ pointers in DRAW/PLAY strings)', t_mlparser_pointer, cases=[{'which': w} for w in ('number', 'string')]),
     Task('DataSegment._set_basic_memory', t_flag_poke, cases=[{'allow': a} for a in (True, False)]),
 ]
 
